@@ -37,6 +37,45 @@ func exec(c vh.ShimCase) (vh.Outcome, error) {
 // genWithRefusals adds fault plans that make the underlying agent refuse the lock or unlock request.
 func genWithRefusals(t *rapid.T) vh.ShimCase {
 	c := vh.GenShimCase(t, profile)
+	// most histories should contain a complete episode: lock, operations attempted while locked,
+	// the right passphrase, and a look at the result
+	if rapid.IntRange(0, 4).Draw(t, "episode") > 0 {
+		nc := len(c.Certs)
+		ep := []vh.Op{
+			{Kind: "addkey", Key: c.Certs[0].Key, Cert: -1},
+			{Kind: "addhard", Cert: 0, Comment: "hw"},
+			{Kind: "lock", Cert: -1, Pass: "episode"},
+		}
+		nb := rapid.IntRange(1, 5).Draw(t, "episodeN")
+		for b := 0; b < nb; b++ {
+			l := fmt.Sprintf("ep%d", b)
+			k := rapid.SampledFrom([]string{"addkey", "addcert", "addhard", "addhard", "remove", "remove", "removeall", "list", "signers", "sign", "lock", "close"}).Draw(t, l)
+			op := vh.Op{Kind: k, Cert: -1}
+			switch k {
+			case "addkey":
+				op.Key = rapid.SampledFrom(vh.SSHKeyNames).Draw(t, l+"Key")
+			case "addcert", "addhard":
+				op.Cert = rapid.IntRange(0, nc-1).Draw(t, l+"Cert")
+			case "remove", "sign":
+				if rapid.Bool().Draw(t, l+"IsCert") {
+					op.Cert = rapid.IntRange(0, nc-1).Draw(t, l+"Cert")
+				} else {
+					op.Key = c.Certs[0].Key
+				}
+			case "lock":
+				op.Pass = "again"
+			}
+			ep = append(ep, op)
+		}
+		if rapid.Bool().Draw(t, "episodeWrong") {
+			ep = append(ep, vh.Op{Kind: "unlock", Cert: -1, Pass: "episodE"})
+		}
+		ep = append(ep, vh.Op{Kind: "unlock", Cert: -1, Pass: "episode"}, vh.Op{Kind: "list", Cert: -1}, vh.Op{Kind: "sign", Cert: 0})
+		at := rapid.IntRange(0, len(c.Ops)).Draw(t, "episodeAt")
+		ops := append([]vh.Op{}, c.Ops[:at]...)
+		ops = append(ops, ep...)
+		c.Ops = append(ops, c.Ops[at:]...)
+	}
 	if rapid.IntRange(0, 2).Draw(t, "refusals") == 0 {
 		var ops []vh.Op
 		for i, op := range c.Ops {
